@@ -27,6 +27,13 @@ def place(rng, nt=False):
     return "a%d" % rng.choice([0, 1, 8, 15, 16, 31, 63, rng.randrange(64)])
 
 
+def out_place(rng, inpl):
+    """output placement; out of place, one call in ten puts the output right behind ("j") or right in front of ("J") the input"""
+    if not inpl and rng.random() < 0.1:
+        return rng.choice(["j", "J"])
+    return place(rng)
+
+
 def bufid(rng):
     return rng.choice([rng.randrange(2, 1 << 20)] * 8 + [0, 1])
 
@@ -203,10 +210,10 @@ def xts_call(rng, fam, bits, dirn, exp, ln):
     pk = (lambda: rng.choice(["a0", "a1", "a8", "a15", "e", "s"]))
     return "xts %s %d %s %d %d %d %d %d %d %d %d %d %d %d %s %s %s %s %s" % (
         fam, bits, dirn, exp, k1b, rng.randrange(1 << 20), k2b, rng.randrange(1 << 20), bufid(rng), rng.randrange(1 << 20),
-        bufid(rng), rng.randrange(1 << 20), ln, inpl, place(rng), place(rng), pk(), pk(), pk())
+        bufid(rng), rng.randrange(1 << 20), ln, inpl, place(rng), out_place(rng, inpl), pk(), pk(), pk())
 
 
-def xts_jobs(rng, n_per_combo, fams=None, short=True, full=False):
+def xts_jobs(rng, n_per_combo, fams=None, short=True, full=False, maxlen=False):
     lens = xts_len_classes()
     jobs = {}
     for fam in (fams or (XTS_FAMS + ["isal", "legacy"])):
@@ -218,6 +225,8 @@ def xts_jobs(rng, n_per_combo, fams=None, short=True, full=False):
                     bs = [[xts_call(rng, fam, bits, dirn, exp, ln)] for ln in picks]
                     if short:
                         bs += [[xts_call(rng, fam, bits, dirn, exp, ln)] for ln in rng.sample(range(0, 16), 3)]
+                    if maxlen:      # the largest legal data unit (ISAL_AES_XTS_MAX_LEN = 2^24 bytes) and its neighbours
+                        bs += [[xts_call(rng, fam, bits, dirn, exp, ln)] for ln in ((1 << 24), rng.choice([(1 << 24) - 1, (1 << 24) - 16]))]
                     jobs[name] = bs
     return jobs
 
@@ -226,7 +235,7 @@ def cbc_call(rng, fam, bits, dirn, ln):
     inpl = 1 if rng.random() < 0.4 else 0
     return "cbc %s %d %s %d %d %d %d %d %d %d %d %s %s" % (
         fam, bits, dirn, rng.randrange(2, 1 << 20), rng.randrange(1 << 20), bufid(rng), rng.randrange(1 << 20),
-        bufid(rng), rng.randrange(1 << 20), ln, inpl, place(rng), place(rng))
+        bufid(rng), rng.randrange(1 << 20), ln, inpl, place(rng), out_place(rng, inpl))
 
 
 def cbc_lens():
